@@ -15,6 +15,10 @@ def storm(name="storm", arg=None, sq=16, st=16, bq=40, bt=600):
     return e
 
 
+def direct(arg, sq=16, st=16, bq=30, bt=420):
+    return {"name": "direct", "pkg": "rig2", "arg": arg, "shards_quick": sq, "shards_thorough": st, "budget_quick": bq, "budget_thorough": bt}
+
+
 PROPS = {
     "C01": {
         "engines": [storm()],
@@ -81,5 +85,30 @@ PROPS = {
         "rule": "each evaluation is one flash-loan start/end instruction, one committed transaction shape containing a start, or one end-time health rejection; distinct = shapes and end-state feature tuples",
         "assumptions": COMMON_ASSUMPTIONS,
         "floors": {"quick": {"C11.start_accepted": 50, "C11.end_accepted": 50, "C11.brackets_committed": 50}},
+    },
+    "C09": {
+        "engines": [direct("C09"), storm("chain", arg="C09", sq=8, st=8)],
+        "rule": "direct rig: each evaluation is one fabricated oracle account (kind x authenticity fault x publish time around the staleness second x confidence around the configured maximum x price/exponent over their integer ranges) passed to the real price adapter and compared with the exact reference; chain rig: doctored oracle accounts driven through borrow/withdraw/liquidate/bankruptcy/receivership; distinct = (kind, validity class, sign, bias percent, max age, offset from the staleness boundary)",
+        "assumptions": COMMON_ASSUMPTIONS + ["venue exchange-rate variants (Kamino/Drift/Solend) are covered by C20 for their math; their adapter branches are not swept here"],
+        "floors": {"quick": {"C09.usable/pyth": 1000, "C09.usable/switchboard": 1000, "C09.usable/staked": 300, "C09.must_reject/pyth/Stale": 300, "C09.must_reject/switchboard/Stale": 300, "C09.bias_pairs_checked": 5000}},
+    },
+    "C15": {
+        "engines": [direct("C15", sq=4, st=8)],
+        "rule": "shard 0: breadth-first exploration of the region graph of the real PanicState transition functions (12 time deltas at the 30 min / 24 h boundaries x 3 operations) normalised by time translation; other shards: random walks with arbitrary deltas; every transition is judged online; distinct = normalised states",
+        "assumptions": ["the direct rig mirrors the three pause handlers as calls on PanicState; the wiring of the handlers themselves is exercised by the C14 chain check"],
+        "floors": {"quick": {"C15.bfs_states": 1000, "C15.pause_accepted": 100000, "C15.permissionless_unpause": 10000}},
+        "exhaustive_note": "exhaustive over the stated alphabet up to the depth bound reported in notes",
+    },
+    "C18": {
+        "engines": [direct("C18")],
+        "rule": "each evaluation is one (configuration accepted by the program's validate(), utilisation) pair evaluated with the real rate calculator; utilisations = every breakpoint +-{0,1,2} ulps, 0, 1, >1 and a random grid; distinct = (shape class, number of points, flat curve, point at 100%)",
+        "assumptions": ["legacy three-point curves are judged on [0,1] only (out-of-range utilisations are counted, not judged)"],
+        "floors": {"quick": {"C18.configs_accepted/valid-random": 200, "C18.configs_accepted/adjacent-utils": 200, "C18.configs_accepted/extreme-rates": 200, "C18.configs_accepted/legacy": 50, "C18.configured_points_checked": 2000}},
+    },
+    "C20": {
+        "engines": [direct("C20")],
+        "rule": "each evaluation is one call of a venue conversion / adjustment / staleness function on inputs clustered at overflow cliffs, judged against exact rationals; distinct = (venue, decimals, magnitude classes of supplies and amount)",
+        "assumptions": ["'never rounds in the user's favour' is judged as the statement defines it (round trips, Drift decrement >= increment); comparison against the exact quotient allows the derived truncation error of the scaled supplies"],
+        "floors": {"quick": {"C20.round_trips": 50000, "C20.monotonicity_pairs": 20000, "C20.adjust_i64/some": 10000, "C20.drift_inc_dec/ok": 10000}},
     },
 }
